@@ -1385,7 +1385,7 @@ def _consumed_whole(e: ast.AST) -> ast.AST | None:
     return None
 
 
-def _fuse_filtered_snapshots(node: ast.AST) -> bool:
+def _fuse_filtered_snapshots(node: ast.AST, fi: FuncInfo | None = None) -> bool:
     """`xs = [E for x in S if C]` (or list(..) / tuple(..) of such a generator) directly followed by the only use of xs, `for T in xs:`,
     walks the selected elements in the same order; nothing runs between the selection and the loop, so for the rules (which
     ask what holds for an element when the body runs) it is the loop over the generator itself."""
@@ -1413,6 +1413,14 @@ def _fuse_filtered_snapshots(node: ast.AST) -> bool:
                 del stmts[i]
                 changed = True
                 continue
+            # `it = helper(..)` (a generator of this repository) directly followed by the only use of it, `for T in it:`, is the loop
+            # over the call itself: the call is evaluated at the same moment, its result goes nowhere else
+            if v is not None and fi is not None and isinstance(b, ast.For) and isinstance(strip_cast(b.iter), ast.Name) and strip_cast(b.iter).id == v \
+                    and loads.get(v) == 1 and stores_.get(v) == 1 and _is_generator_call(fi, strip_cast(a.value)):
+                b.iter = strip_cast(a.value)
+                del stmts[i]
+                changed = True
+                continue
             i += 1
         for st in stmts:
             if isinstance(st, (ast.FunctionDef, ast.AsyncFunctionDef, ast.ClassDef)):
@@ -1424,6 +1432,200 @@ def _fuse_filtered_snapshots(node: ast.AST) -> bool:
             for h in getattr(st, "handlers", []):
                 block(h.body)
     block(node.body)
+    return changed
+
+
+# --- iteration written out by hand.  A `while` loop that fetches the next element itself visits the elements of an iterator exactly as a
+#     `for` statement does (same order, same early exits by break, `continue` fetches the next element in both):
+#         while (x := next(it, D)) is not D: BODY                              (no element is D)
+#         while True: try: x = next(it) / except StopIteration: break; BODY
+#         x = next(it, D) / while x is not D: BODY; x = next(it, D)            (BODY without continue)
+#         i = 0 / while i < len(seq): x = seq[i]; BODY; i += 1                 (BODY without continue, seq and i untouched by BODY)
+#         for i in range(len(seq)): x = seq[i]; BODY                           (seq and i untouched by BODY)
+#         for i, x in enumerate(S): BODY                                       (i not used)
+#     The rules ask which elements a traversal visits and what happens per element; they read the `for` form.
+def _end_marker(fi: FuncInfo, e: ast.AST) -> bool:
+    """a value no cache / future / pair is: None, or a module-level sentinel `NAME = object()`"""
+    if _is_none(e) and e is not None:
+        return True
+    if isinstance(e, ast.Name) and e.id not in fi.params():
+        v = fi.module.constants.get(e.id)
+        return isinstance(v, ast.Call) and chain(v.func) == "object" and not v.args and not v.keywords
+    return False
+
+
+def _next_call(e: ast.AST, with_default: bool) -> tuple[str, ast.AST | None] | None:
+    """e is `next(<name>)` / `next(<name>, D)` -> (name, D)"""
+    e = strip_cast(e)
+    if isinstance(e, ast.Call) and chain(e.func) == "next" and not e.keywords and len(e.args) == (2 if with_default else 1) \
+            and isinstance(e.args[0], ast.Name) and not any(isinstance(a, ast.Starred) for a in e.args):
+        return e.args[0].id, (e.args[1] if with_default else None)
+    return None
+
+
+def _is_generator_call(fi: FuncInfo, v: ast.AST) -> bool:
+    """v calls a generator function of this repository (every possible target has a yield of its own)"""
+    repo = _REPO[0]
+    if repo is None or not isinstance(v, ast.Call):
+        return False
+    try:
+        tg = [t for t in repo.resolve_call(fi, v)]
+    except Exception:  # noqa: BLE001
+        return False
+    return bool(tg) and all(isinstance(t, FuncInfo) and not t.is_async and any(isinstance(x, (ast.Yield, ast.YieldFrom)) for x in walk_no_nested(t.node)) for t in tg)
+
+
+def _explicit_loops(fi: FuncInfo, node: ast.AST) -> bool:
+    occ: dict[str, list[ast.Name]] = {}
+    for x in ast.walk(node):
+        if isinstance(x, ast.Name):
+            occ.setdefault(x.id, []).append(x)
+    params = {x.arg for x in ast.walk(node) if isinstance(x, ast.arg)}
+
+    def inside(n: ast.AST, roots: list) -> bool:
+        return any(n is r or any(a is r for a in ancestors(n)) for r in roots)
+
+    def only_in(name: str, roots: list) -> bool:
+        """every occurrence of the local lies in one of the given subtrees"""
+        return name not in params and all(inside(x, roots) for x in occ.get(name, []))
+
+    def iterator_name(name: str) -> bool:
+        """the local is bound (outside the loop) only to iter(..) calls and generator expressions / generator calls: `for` over it
+        takes the same elements as next() does"""
+        st = [x for x in occ.get(name, []) if isinstance(x.ctx, ast.Store)]
+        if name in params or not st:
+            return False
+        for x in st:
+            p_ = parent(x)
+            v = strip_cast(p_.value) if isinstance(p_, ast.Assign) and len(p_.targets) == 1 and p_.targets[0] is x else None
+            if not (isinstance(v, ast.GeneratorExp) or (isinstance(v, ast.Call) and chain(v.func) == "iter" and len(v.args) == 1 and not v.keywords)
+                    or _is_generator_call(fi, v)):
+                return False
+        return True
+
+    def plain_target(t: ast.AST) -> bool:
+        return isinstance(t, ast.Name) or (isinstance(t, (ast.Tuple, ast.List)) and all(isinstance(x, ast.Name) for x in t.elts))
+
+    def target_names(t: ast.AST) -> list[str]:
+        return [x.id for x in ast.walk(t) if isinstance(x, ast.Name)]
+
+    def is_test(t: ast.AST, var: str, marker: ast.AST) -> bool:
+        """`var is not D`"""
+        return isinstance(t, ast.Compare) and len(t.ops) == 1 and isinstance(t.ops[0], ast.IsNot) and isinstance(t.left, ast.Name) and t.left.id == var \
+            and norm(t.comparators[0]) == norm(marker)
+
+    def stored_in(name: str, stmts: list) -> bool:
+        return any(isinstance(x.ctx, (ast.Store, ast.Del)) and inside(x, stmts) for x in occ.get(name, []))
+
+    def fn(st):
+        blk_prev = getattr(st, "_c10_prev", None)
+        if isinstance(st, ast.While) and not st.orelse:
+            t = strip_cast(st.test)
+            # A. while (x := next(it, D)) is not D
+            if isinstance(t, ast.Compare) and len(t.ops) == 1 and isinstance(t.ops[0], ast.IsNot) and isinstance(t.left, ast.NamedExpr):
+                nx = _next_call(t.left.value, True)
+                x = t.left.target.id
+                if nx is not None and _end_marker(fi, nx[1]) and norm(t.comparators[0]) == norm(nx[1]) and iterator_name(nx[0]) \
+                        and only_in(x, [st]) and not stored_in(x, st.body) and not stored_in(nx[0], [st]):
+                    return [ast.copy_location(ast.For(ast.Name(x, ast.Store()), ast.Name(nx[0], ast.Load()), st.body, [], None), st)]
+            # B. while True: try: x = next(it) / except StopIteration: break
+            if isinstance(t, ast.Constant) and t.value is True and st.body and isinstance(st.body[0], ast.Try):
+                tr = st.body[0]
+                a = tr.body[0] if len(tr.body) == 1 else None
+                nx = _next_call(a.value, False) if isinstance(a, ast.Assign) and len(a.targets) == 1 and plain_target(a.targets[0]) else None
+                h = tr.handlers[0] if len(tr.handlers) == 1 else None
+                if nx is not None and h is not None and chain(h.type) == "StopIteration" and h.name is None and len(h.body) == 1 and isinstance(h.body[0], ast.Break) \
+                        and not tr.finalbody and iterator_name(nx[0]) and not stored_in(nx[0], [st]) \
+                        and all(only_in(v, [st]) and not stored_in(v, st.body[1:] + tr.orelse) for v in target_names(a.targets[0])):
+                    return [ast.copy_location(ast.For(a.targets[0], ast.Name(nx[0], ast.Load()), tr.orelse + st.body[1:] or [ast.copy_location(ast.Pass(), st)], [], None), st)]
+            # C. x = next(it, D) / while x is not D: BODY; x = next(it, D)
+            last = st.body[-1] if st.body else None
+            if isinstance(last, ast.Assign) and len(last.targets) == 1 and isinstance(last.targets[0], ast.Name) and isinstance(blk_prev, ast.Assign) \
+                    and norm(blk_prev) == norm(last) and len(st.body) > 1:
+                nx = _next_call(last.value, True)
+                x = last.targets[0].id
+                if nx is not None and _end_marker(fi, nx[1]) and is_test(t, x, nx[1]) and iterator_name(nx[0]) and only_in(x, [st, blk_prev]) \
+                        and not stored_in(x, st.body[:-1]) and not stored_in(nx[0], [st]) and not _own_level(st.body, (ast.Continue,)):
+                    return [ast.copy_location(ast.For(ast.Name(x, ast.Store()), ast.Name(nx[0], ast.Load()), st.body[:-1], [], None), st)]
+            # D. i = 0 / while i < len(seq): x = seq[i]; BODY; i += 1
+            first = st.body[0] if st.body else None
+            if isinstance(t, ast.Compare) and len(t.ops) == 1 and isinstance(t.ops[0], ast.Lt) and isinstance(t.left, ast.Name) and len(st.body) >= 2 \
+                    and isinstance(t.comparators[0], ast.Call) and chain(t.comparators[0].func) == "len" and len(t.comparators[0].args) == 1 \
+                    and isinstance(t.comparators[0].args[0], ast.Name) and isinstance(last, ast.AugAssign) and isinstance(last.op, ast.Add) \
+                    and isinstance(last.target, ast.Name) and const_value(last.value) == 1 and not isinstance(const_value(last.value), bool):
+                i, seq = t.left.id, t.comparators[0].args[0].id
+                init = isinstance(blk_prev, ast.Assign) and len(blk_prev.targets) == 1 and isinstance(blk_prev.targets[0], ast.Name) and blk_prev.targets[0].id == i \
+                    and const_value(blk_prev.value) == 0 and not isinstance(const_value(blk_prev.value), bool)
+                elem = isinstance(first, ast.Assign) and len(first.targets) == 1 and plain_target(first.targets[0]) and isinstance(strip_cast(first.value), ast.Subscript) \
+                    and norm(strip_cast(first.value)) == f"{seq}[{i}]"
+                if init and elem and last.target.id == i and i not in target_names(first.targets[0]) and seq not in target_names(first.targets[0]) \
+                        and only_in(i, [blk_prev, st.test, first.value, last]) and _snapshot_local(seq) and not stored_in(seq, [st]) \
+                        and not _own_level(st.body, (ast.Continue,)) \
+                        and all(only_in(v, [st]) and not stored_in(v, st.body[1:]) for v in target_names(first.targets[0])):
+                    return [ast.copy_location(ast.For(first.targets[0], ast.Name(seq, ast.Load()), st.body[1:-1] or [ast.copy_location(ast.Pass(), st)], [], None), st)]
+        if isinstance(st, ast.For) and not st.orelse:
+            it = strip_cast(st.iter)
+            first = st.body[0] if st.body else None
+            # E. for i in range(len(seq)): x = seq[i]; BODY
+            if isinstance(st.target, ast.Name) and isinstance(it, ast.Call) and chain(it.func) == "range" and len(it.args) == 1 and not it.keywords \
+                    and isinstance(it.args[0], ast.Call) and chain(it.args[0].func) == "len" and len(it.args[0].args) == 1 and isinstance(it.args[0].args[0], ast.Name) \
+                    and isinstance(first, ast.Assign) and len(first.targets) == 1 and plain_target(first.targets[0]):
+                i, seq = st.target.id, it.args[0].args[0].id
+                if isinstance(strip_cast(first.value), ast.Subscript) and norm(strip_cast(first.value)) == f"{seq}[{i}]" and only_in(i, [st.target, first.value]) \
+                        and i not in target_names(first.targets[0]) and seq not in target_names(first.targets[0]) and _snapshot_local(seq) and not stored_in(seq, [st]) \
+                        and all(only_in(v, [st]) and not stored_in(v, st.body[1:]) for v in target_names(first.targets[0])):
+                    return [ast.copy_location(ast.For(first.targets[0], ast.Name(seq, ast.Load()), st.body[1:] or [ast.copy_location(ast.Pass(), st)], [], None), st)]
+            # F. for i, x in enumerate(S): BODY   (i unused)
+            if isinstance(st.target, (ast.Tuple, ast.List)) and len(st.target.elts) == 2 and isinstance(st.target.elts[0], ast.Name) \
+                    and isinstance(it, ast.Call) and chain(it.func) == "enumerate" and len(it.args) == 1 and not it.keywords and not isinstance(it.args[0], ast.Starred) \
+                    and only_in(st.target.elts[0].id, [st.target]) and plain_target(st.target.elts[1]):
+                return [ast.copy_location(ast.For(st.target.elts[1], it.args[0], st.body, [], None), st)]
+        return None
+
+    def _snapshot_local(seq: str) -> bool:
+        """the local is bound once, to a freshly built list / tuple (an eager copy): nothing else refers to it, so its length and its
+        elements stay what they are while the loop runs (BODY itself does not touch the name: checked by the caller)"""
+        st = [x for x in occ.get(seq, []) if isinstance(x.ctx, ast.Store)]
+        if seq in params or len(st) != 1:
+            return False
+        p_ = parent(st[0])
+        v = strip_cast(p_.value) if isinstance(p_, ast.Assign) and len(p_.targets) == 1 and p_.targets[0] is st[0] else None
+        fresh = isinstance(v, (ast.ListComp, ast.List, ast.Tuple)) or (isinstance(v, ast.Call) and chain(v.func) in ("list", "tuple", "sorted"))
+        # and it is only indexed / measured, never handed on or mutated
+        for x in occ.get(seq, []):
+            if isinstance(x.ctx, ast.Load):
+                q = parent(x)
+                if not ((isinstance(q, ast.Subscript) and q.value is x and isinstance(q.ctx, ast.Load)) or
+                        (isinstance(q, ast.Call) and chain(q.func) == "len" and q.args and q.args[0] is x)):
+                    return False
+        return fresh
+
+    # the statement just before each statement (the loop's priming assignment)
+    for x in ast.walk(node):
+        for f in ("body", "orelse", "finalbody"):
+            blk = getattr(x, f, None)
+            if isinstance(blk, list) and blk and isinstance(blk[0], ast.stmt):
+                for k, st in enumerate(blk):
+                    st.__dict__["_c10_prev"] = blk[k - 1] if k else None
+    drop: list = []
+
+    def fn2(st):
+        r = fn(st)
+        if r is not None and isinstance(st, ast.While):
+            t = strip_cast(st.test)
+            prev = st.__dict__.get("_c10_prev")
+            # the priming statement of forms C / D is part of the loop that was rewritten
+            if isinstance(prev, ast.Assign) and not (isinstance(t, ast.Compare) and isinstance(t.left, ast.NamedExpr)) and not isinstance(t, ast.Constant):
+                drop.append(prev)
+        return r
+    changed = _rewrite_blocks(node, fn2)
+    if drop:
+        _rewrite_blocks(node, lambda st: [] if any(st is d for d in drop) else None)
+        # a block may not be left empty
+        for x in ast.walk(node):
+            for f in ("body",):
+                if isinstance(getattr(x, f, None), list) and not getattr(x, f) and isinstance(x, (ast.If, ast.For, ast.While, ast.With, ast.Try, ast.FunctionDef, ast.AsyncFunctionDef)):
+                    x.body = [ast.Pass()]
     return changed
 
 
@@ -1787,21 +1989,150 @@ def _desugar_matches(fi: FuncInfo, node: ast.AST) -> bool:
     return changed
 
 
-def _inline_new_helpers(fi: FuncInfo, node: ast.AST) -> bool:
+def _is_new(repo, t: FuncInfo) -> bool:
+    """t is not part of the reviewed code: its qualified name is not in the frozen table of its file, or its file did not exist"""
+    import os
+    try:
+        from ..localnames import load_table
+        tables = load_table()
+    except Exception:  # noqa: BLE001
+        return False
+    table = tables.get(t.module.relpath)
+    if table is not None:
+        return t.qualname not in table
+    return not os.path.exists(os.path.join(getattr(repo, "root", "/repo"), t.module.relpath))
+
+
+def _module_binding(m, name: str):
+    """what a module-level name stands for in module m: its own definition, or the definition it imports; None when m does not bind it"""
+    if name in m.classes or name in m.functions or name in m.constants:
+        return ("def", m.name, name)
+    if name in m.imports:
+        mod, attr = m.imports[name]
+        return ("mod", mod) if attr is None else ("def", mod, attr)
+    return None
+
+
+def _names_agree(m1, m2, fn: ast.AST) -> bool:
+    """the body of fn (written for module m2) reads the same when it stands in module m1: every global name it uses is bound to the
+    same definition in both modules, or is not bound in m1 at all (then it is merely unknown there, never mistaken for something else)"""
+    import builtins
+    if m1 is m2:
+        return True
+    a = fn.args
+    bound = {x.arg for x in a.posonlyargs + a.args + a.kwonlyargs} | ({a.vararg.arg} if a.vararg else set()) | ({a.kwarg.arg} if a.kwarg else set())
+    bound |= {x.id for st in fn.body for x in ast.walk(st) if isinstance(x, ast.Name) and isinstance(x.ctx, (ast.Store, ast.Del))}
+    bound |= {x.name for st in fn.body for x in ast.walk(st) if isinstance(x, ast.ExceptHandler) and x.name}
+    for st in fn.body:
+        for x in ast.walk(st):
+            if not (isinstance(x, ast.Name) and isinstance(x.ctx, ast.Load)) or x.id in bound:
+                continue
+            b1, b2 = _module_binding(m1, x.id), _module_binding(m2, x.id)
+            if b1 == b2 or (b1 is None and not hasattr(builtins, x.id)):
+                continue
+            return False
+    return True
+
+
+def _foreign_helpers(fi: FuncInfo, node: ast.AST, origin: ast.AST) -> tuple[list, list]:
+    """NEW helpers that node calls but that live outside fi's own file / class - a function imported by name from another (possibly
+    new) module, a method of a base class or mixin that fi's class inherits unchanged: (copies of the functions under the name the
+    caller uses, copies of the methods).  Calling them runs their body with the parameters bound, wherever the text is kept."""
+    repo = _REPO[0]
+    if repo is None:
+        return [], []
+    funcs: dict[str, ast.AST] = {}
+    meths: dict[str, ast.AST] = {}
+    own = {x.id for x in ast.walk(node) if isinstance(x, ast.Name) and isinstance(x.ctx, (ast.Store, ast.Del))} | {x.arg for x in ast.walk(node) if isinstance(x, ast.arg)}
+    todo = [node]
+    for _ in range(4):
+        nxt = []
+        for n in todo:
+            for c in (x for x in ast.walk(n) if isinstance(x, ast.Call)):
+                f = c.func
+                if isinstance(f, ast.Name) and f.id not in funcs and f.id not in own and f.id not in fi.module.functions and f.id in fi.module.imports:
+                    t = repo.resolve_name(fi.module, f.id)
+                    if isinstance(t, FuncInfo) and t.cls is None and t.module is not fi.module and t.module.functions.get(t.name) is t \
+                            and t.node is not origin and _is_new(repo, t) and _names_agree(fi.module, t.module, t.node):
+                        d = clone(t.node)
+                        d.name = f.id
+                        funcs[f.id] = d
+                        nxt.append(d)
+                elif isinstance(f, ast.Attribute) and isinstance(f.value, ast.Name) and f.value.id in ("self", "cls") and fi.cls is not None \
+                        and f.attr not in meths and f.attr not in fi.cls.methods:
+                    t = fi.cls.lookup(f.attr)
+                    if t is None or t.cls is None or t.cls is fi.cls or t.node is origin or not _is_new(repo, t):
+                        continue
+                    # an overridable hook does not denote this one body
+                    if sum(1 for k in repo.all_classes() if f.attr in k.methods) != 1 or not _names_agree(fi.module, t.module, t.node):
+                        continue
+                    d = clone(t.node)
+                    meths[f.attr] = d
+                    nxt.append(d)
+        todo = nxt
+        if not todo:
+            break
+    return list(funcs.values()), list(meths.values())
+
+
+def _lift_tail_with_return(fn: ast.AST) -> None:
+    """`with A: S; return E` as the last statement of a helper (a private copy) -> `with A: S; r = E` / `return r`: the value is
+    computed at the same place, the with-block is left the same way and the function then returns it.  (For a context manager
+    that is not a lock, `r = None` is bound first: had the manager swallowed an exception, the function would have returned None.)
+    The engine's inliner only turns returns into assignments when they are not inside a with-block."""
+    if not fn.body or not isinstance(fn.body[-1], (ast.With, ast.AsyncWith)):
+        return
+    w = fn.body[-1]
+    inner = w
+    while len(inner.body) == 1 and isinstance(inner.body[0], (ast.With, ast.AsyncWith)):
+        inner = inner.body[0]
+    last = inner.body[-1]
+    if not (isinstance(last, ast.Return) and last.value is not None):
+        return
+    if any(isinstance(x, ast.Return) and x is not last for st in fn.body for x in _walk_stmt_no_nested(st)):
+        return
+    taken = _names(fn) | {x.arg for x in ast.walk(fn) if isinstance(x, ast.arg)}
+    v = "result_w"
+    while v in taken:
+        v += "_"
+    inner.body[-1] = ast.copy_location(ast.Assign([ast.Name(v, ast.Store())], last.value), last)
+    cur, locks = w, True
+    while True:
+        locks = locks and all((chain(i.context_expr) or "").lower().endswith("lock") for i in cur.items)
+        if cur is inner:
+            break
+        cur = cur.body[0]
+    pre = [] if locks else [ast.copy_location(ast.Assign([ast.Name(v, ast.Store())], ast.Constant(None)), w)]
+    fn.body = fn.body[:-1] + pre + [w, ast.copy_location(ast.Return(ast.Name(v, ast.Load())), last)]
+    ast.fix_missing_locations(fn)
+
+
+def _walk_stmt_no_nested(st: ast.AST):
+    yield st
+    for ch in ast.iter_child_nodes(st):
+        if isinstance(ch, (ast.FunctionDef, ast.AsyncFunctionDef, ast.ClassDef, ast.Lambda)):
+            continue
+        yield from _walk_stmt_no_nested(ch)
+
+
+def _inline_new_helpers(fi: FuncInfo, node: ast.AST, only_if_foreign: bool = False) -> bool:
     """Run the engine's own helper inlining (sa.normalize, the pass applied to every module at load time) once more on the private
     copy `node`: after `map(self._helper, xs)` / `partial(..)` pipelines have been written as loops with a direct call, a NEW helper
-    that could not be inlined at load time (it was referenced as a value, not called) is an ordinary extracted step."""
+    that could not be inlined at load time (it was referenced as a value, not called) is an ordinary extracted step.  So is a NEW
+    helper that the load-time pass does not see because it is kept in another file (a new private module, the base class)."""
     try:
         from ..localnames import load_table
         from ..normalize import inline_new_helpers
         table = load_table().get(fi.module.relpath)
     except Exception:  # noqa: BLE001
         return False
-    if not table:
+    origin = node.__dict__.get("_c10_origin", fi.node)
+    ffuncs, fmeths = _foreign_helpers(fi, node, origin)
+    if (not table or only_if_foreign) and not ffuncs and not fmeths:
         return False
-    known = set(table)
+    known = set(table or ())
     cls = fi.cls.name if fi.cls is not None else None
-    wanted = False
+    wanted = bool(ffuncs or fmeths)
     for c in calls(node):
         f = c.func
         if isinstance(f, ast.Name) and f.id in fi.module.functions and f.id not in known:
@@ -1811,18 +2142,174 @@ def _inline_new_helpers(fi: FuncInfo, node: ast.AST) -> bool:
             wanted = True
     if not wanted:
         return False
-    origin = node.__dict__.get("_c10_origin", fi.node)
-    body: list = [clone(g.node) for g in fi.module.functions.values() if g.name not in known and g.node is not origin]
+    body: list = [clone(g.node) for g in fi.module.functions.values() if g.name not in known and g.node is not origin] if table else []
+    body += ffuncs
     if cls is not None:
-        members = [clone(m.node) for m in fi.cls.methods.values() if f"{cls}.{m.name}" not in known and m.node is not origin]
-        body.append(ast.ClassDef(cls, [], [], members + [node], []))
+        hooks = {n for k in (_REPO[0].all_classes() if _REPO[0] is not None else ()) if k is not fi.cls for n in k.methods}
+        members = [clone(m.node) for m in fi.cls.methods.values()
+                   if f"{cls}.{m.name}" not in known and m.node is not origin and m.name not in hooks] if table else []
+        body.append(ast.ClassDef(cls, [], [], members + fmeths + [node], []))
     else:
         body.append(node)
+    for d in body:
+        for h in (d.body if isinstance(d, ast.ClassDef) else [d]):
+            if isinstance(h, (ast.FunctionDef, ast.AsyncFunctionDef)) and h is not node:
+                _lift_tail_with_return(h)
     mod = ast.fix_missing_locations(ast.Module(body, []))
     try:
         return inline_new_helpers(mod, known, set()) > 0
     except Exception:  # noqa: BLE001
         return False
+
+
+# --- decorated functions made explicit.  `@d` / `@d(args)` with a NEW private decorator whose definition does nothing but define and
+#     return a wrapper makes the decorated name denote that wrapper, with the wrapper's call of its parameter (`method(self, ..)`)
+#     standing for the decorated body.  Wrapper and body are read as the one function they run as: a guard, a lock or a conversion kept in
+#     the decorator is then part of the function the rules examine (and so is anything harmful a decorator does).
+_PLAIN_DECORATORS = ("staticmethod", "classmethod", "property", "overload", "abstractmethod", "contextmanager", "asynccontextmanager", "wraps", "task")
+
+
+def _returned_def(fn: ast.AST) -> ast.AST | None:
+    """fn's body is (docstring,) one nested def, `return <that def>` (possibly through cast(..)): the def"""
+    body = [x for i, x in enumerate(fn.body) if not (i == 0 and isinstance(x, ast.Expr) and isinstance(x.value, ast.Constant) and isinstance(x.value.value, str))]
+    if len(body) != 2 or not isinstance(body[0], (ast.FunctionDef, ast.AsyncFunctionDef)) or not isinstance(body[1], ast.Return) or body[1].value is None:
+        return None
+    v = strip_cast(body[1].value)
+    return body[0] if isinstance(v, ast.Name) and v.id == body[0].name else None
+
+
+def _compose_decorated(fi: FuncInfo, node: ast.AST) -> ast.AST | None:
+    """the function `node` (a private copy of fi.node) runs as, when it carries one NEW private decorator: the decorator's wrapper with
+    the decorated body inlined at the wrapper's call of it; None when there is no such decorator or the shape is not understood"""
+    repo = _REPO[0]
+    if repo is None or not getattr(node, "decorator_list", None):
+        return None
+    from ..normalize import inline_new_helpers
+    new_decs = []
+    for d in node.decorator_list:
+        f = d.func if isinstance(d, ast.Call) else d
+        if isinstance(f, ast.Name) and _last(f.id) not in _PLAIN_DECORATORS:
+            t = repo.resolve_name(fi.module, f.id)
+            if isinstance(t, FuncInfo) and t.cls is None and t.module.functions.get(t.name) is t and _is_new(repo, t):
+                new_decs.append((d, t))
+    if len(new_decs) != 1 or len(node.decorator_list) != 1:
+        return None
+    d, t = new_decs[0]
+    if not _names_agree(fi.module, t.module, t.node):
+        return None
+    outer = clone(t.node)
+    subst: dict[str, ast.AST] = {}
+    if isinstance(d, ast.Call):
+        # @d(args): d(args) returns the real decorator
+        b = _bind_call(d, t)
+        inner = _returned_def(outer)
+        if b is None or inner is None or outer.args.vararg or outer.args.kwarg or isinstance(inner, ast.AsyncFunctionDef):
+            return None
+        a = outer.args
+        allp = a.posonlyargs + a.args
+        for p_, dv in zip(allp[len(allp) - len(a.defaults):], a.defaults):
+            b.setdefault(p_.arg, dv)
+        for p_, dv in zip(a.kwonlyargs, a.kw_defaults):
+            if dv is not None:
+                b.setdefault(p_.arg, dv)
+        if set(b) != {x.arg for x in allp + a.kwonlyargs} or not all(_simple_value(v) and not isinstance(strip_cast(v), ast.Lambda) for v in b.values()):
+            return None
+        stored = {x.id for x in ast.walk(inner) if isinstance(x, ast.Name) and isinstance(x.ctx, (ast.Store, ast.Del))} | {x.arg for x in ast.walk(inner) if isinstance(x, ast.arg)}
+        if stored & set(b):
+            return None
+        subst = dict(b)
+        outer = inner
+    wrapper = _returned_def(outer)
+    oa = outer.args
+    if wrapper is None or len(oa.posonlyargs + oa.args) != 1 or oa.vararg or oa.kwarg or oa.kwonlyargs:
+        return None
+    if isinstance(wrapper, ast.AsyncFunctionDef) != isinstance(node, ast.AsyncFunctionDef):
+        return None
+    meth = (oa.posonlyargs + oa.args)[0].arg
+    # the wrapper may only mention the decorated function to call it (and in @wraps(..))
+    wrapper.decorator_list = [x for x in wrapper.decorator_list
+                              if not (isinstance(x, ast.Call) and _last(chain(x.func)) == "wraps" and len(x.args) == 1 and isinstance(x.args[0], ast.Name) and x.args[0].id == meth)]
+    if wrapper.decorator_list:
+        return None
+    mcalls = [c for c in ast.walk(wrapper) if isinstance(c, ast.Call) and isinstance(c.func, ast.Name) and c.func.id == meth]
+    callee_ids = {id(c.func) for c in mcalls}
+    if not mcalls or any(isinstance(x, ast.Name) and x.id == meth and id(x) not in callee_ids for x in ast.walk(wrapper)) \
+            or any(isinstance(x, ast.arg) and x.arg == meth for x in ast.walk(wrapper)):
+        return None
+    if any(isinstance(x, (ast.FunctionDef, ast.AsyncFunctionDef, ast.Lambda, ast.ClassDef)) and x is not wrapper for x in ast.walk(wrapper)):
+        return None
+    wa, na = wrapper.args, node.args
+    wpos = wa.posonlyargs + wa.args
+    npos = na.posonlyargs + na.args
+    is_method = fi.cls is not None and "staticmethod" not in fi.decorator_names()
+    if is_method and (not wpos or not npos):
+        return None
+    if wa.vararg or wa.kwarg:
+        # (self, *args, **kwargs) handing everything on unchanged: the wrapper takes what the decorated function takes
+        va, kw = (wa.vararg.arg if wa.vararg else None), (wa.kwarg.arg if wa.kwarg else None)
+        if len(wpos) != (1 if is_method else 0) or wa.kwonlyargs or na.vararg or na.kwarg or na.posonlyargs:
+            return None
+        rest = npos[1:] if is_method else npos
+        taken = _names(wrapper) | {x.arg for x in ast.walk(wrapper) if isinstance(x, ast.arg)}
+        if any(x.arg in taken for x in rest + na.kwonlyargs):
+            return None
+        for c in mcalls:
+            lead = c.args[:len(wpos)]
+            tail = c.args[len(wpos):]
+            ok = len(lead) == len(wpos) and all(isinstance(x, ast.Name) and x.id == q.arg for x, q in zip(lead, wpos))
+            ok = ok and (len(tail) == (1 if va else 0)) and all(isinstance(x, ast.Starred) and isinstance(x.value, ast.Name) and x.value.id == va for x in tail)
+            ok = ok and (len(c.keywords) == (1 if kw else 0)) and all(k.arg is None and isinstance(k.value, ast.Name) and k.value.id == kw for k in c.keywords)
+            if not ok:
+                return None
+        used = [x for x in ast.walk(wrapper) if isinstance(x, ast.Name) and x.id in (va, kw)]
+        if len(used) != len(mcalls) * ((1 if va else 0) + (1 if kw else 0)):
+            return None
+        for c in mcalls:
+            c.args = c.args[:len(wpos)] + [ast.Name(x.arg, ast.Load()) for x in rest]
+            c.keywords = [ast.keyword(x.arg, ast.Name(x.arg, ast.Load())) for x in na.kwonlyargs]
+        wrapper.args = ast.arguments([], wpos + [clone(x) for x in rest], None, [clone(x) for x in na.kwonlyargs], [clone(x) if x is not None else None for x in na.kw_defaults],
+                                     None, [clone(x) for x in na.defaults[max(0, len(na.defaults) - len(rest)):]])
+    elif [x.arg for x in wpos[1 if is_method else 0:]] != [x.arg for x in npos[1 if is_method else 0:]] or [x.arg for x in wa.kwonlyargs] != [x.arg for x in na.kwonlyargs]:
+        return None          # a wrapper with another signature than the function it wraps: the rules' reading of the parameters would not hold
+    if subst:
+        wrapper = _Rename({}, subst).visit(wrapper)
+    body_name = f"{node.name}_decorated_"
+    recv = wpos[0].arg if is_method else None
+    if is_method and recv != "self":
+        if "self" in _names(wrapper):
+            return None
+        wrapper = _Rename({recv: "self"}).visit(wrapper)
+        for x in ast.walk(wrapper):
+            if isinstance(x, ast.arg) and x.arg == recv:
+                x.arg = "self"
+        recv = "self"
+    for c in [c for c in ast.walk(wrapper) if isinstance(c, ast.Call) and isinstance(c.func, ast.Name) and c.func.id == meth]:
+        if is_method:
+            if not (c.args and isinstance(c.args[0], ast.Name) and c.args[0].id == recv):
+                return None
+            c.func = ast.Attribute(ast.Name(recv, ast.Load()), body_name, ast.Load())
+            c.args = c.args[1:]
+        else:
+            c.func = ast.Name(body_name, ast.Load())
+    body_fn = node
+    body_fn.decorator_list = [x for x in body_fn.decorator_list if x is not d]
+    body_fn.name = body_name
+    wrapper.name = fi.name
+    wrapper.returns = None
+    if is_method:
+        mod = ast.Module([ast.ClassDef(fi.cls.name, [], [], [body_fn, wrapper], [])], [])
+        known = {f"{fi.cls.name}.{fi.name}"}
+    else:
+        mod = ast.Module([body_fn, wrapper], [])
+        known = {fi.name}
+    ast.fix_missing_locations(mod)
+    try:
+        n = inline_new_helpers(mod, known, set())
+    except Exception:  # noqa: BLE001
+        return None
+    if not n or any(isinstance(x, (ast.Name, ast.Attribute)) and (getattr(x, "id", None) == body_name or getattr(x, "attr", None) == body_name) for x in ast.walk(wrapper)):
+        return None
+    return wrapper
 
 
 def _view(ctx: Ctx, fi: FuncInfo) -> FuncInfo:
@@ -1853,10 +2340,27 @@ def _build_view(ctx: Ctx, fi: FuncInfo) -> FuncInfo:
     set_parents(node)
     node.__dict__["_c10_origin"] = fi.node
     changed_any = False
+    if node.decorator_list:
+        composed = _compose_decorated(fi, clone(fi.node))
+        if composed is not None:
+            node = composed
+            ast.fix_missing_locations(node)
+            set_parents(node)
+            node.__dict__["_c10_origin"] = fi.node
+            changed_any = True
     for round_ in range(3):
         tmp = FuncInfo(fi.name, fi.qualname, node, fi.module, fi.cls)
         changed = False
+        if _inline_new_helpers(fi, node):
+            changed = True
+            ast.fix_missing_locations(node)
+            set_parents(node)
         if _inline_properties(fi, node):
+            changed = True
+            ast.fix_missing_locations(node)
+            set_parents(node)
+        if any(isinstance(x, ast.While) or (isinstance(x, ast.For) and isinstance(strip_cast(x.iter), ast.Call) and chain(strip_cast(x.iter).func) in ("range", "enumerate"))
+               for x in walk_no_nested(node)) and _explicit_loops(fi, node):
             changed = True
             ast.fix_missing_locations(node)
             set_parents(node)
@@ -1882,7 +2386,7 @@ def _build_view(ctx: Ctx, fi: FuncInfo) -> FuncInfo:
         if any((isinstance(x, ast.For) and isinstance(strip_cast(x.iter), (ast.GeneratorExp, ast.Call, ast.Name))) or
                (isinstance(x, ast.Expr) and _consumed_whole(x.value) is not None) or (isinstance(x, ast.With) and _suppressed(x) is not None)
                for x in walk_no_nested(node)):
-            expanded = _fuse_filtered_snapshots(node)
+            expanded = _fuse_filtered_snapshots(node, tmp)
             for _ in range(4):
                 set_parents(node)
                 tmp = FuncInfo(fi.name, fi.qualname, node, fi.module, fi.cls)
@@ -2377,13 +2881,16 @@ def _cancels_each(ctx: Ctx, fi: FuncInfo, c: ast.Call, fut: ast.AST, loops: list
     return bool(heads) and bool(same) and not any(h in r for h in heads)
 
 
-def _delay_leaves(ctx: Ctx, fi: FuncInfo, e: ast.AST, bind: dict[str, str], depth: int = 3) -> list[str]:
+def _delay_leaves(ctx: Ctx, fi: FuncInfo, e: ast.AST, bind: dict[str, str], depth: int = 5) -> list[str]:
     """Source texts (parameters of helpers substituted by the caller's arguments) of the values a delay expression can take."""
     e = strip_cast(e)
     if depth <= 0:
         return [norm(e)]
     if isinstance(e, ast.IfExp):
         return _delay_leaves(ctx, fi, e.body, bind, depth) + _delay_leaves(ctx, fi, e.orelse, bind, depth)
+    if isinstance(e, ast.BoolOp):
+        # `a or b` / `a and b` evaluates to one of its operands
+        return [x for v in e.values for x in _delay_leaves(ctx, fi, v, bind, depth)]
     if isinstance(e, ast.Name) and e.id not in fi.params():
         out = []
         for _, v, idx in local_defs(fi, e.id):
@@ -2402,8 +2909,9 @@ def _delay_leaves(ctx: Ctx, fi: FuncInfo, e: ast.AST, bind: dict[str, str], dept
         return [x for v in table.values for x in _delay_leaves(ctx, fi, v, bind, depth - 1)]
     if isinstance(table, (ast.Tuple, ast.List)) and table.elts and not any(isinstance(x, ast.Starred) for x in table.elts):
         return [x for v in table.elts for x in _delay_leaves(ctx, fi, v, bind, depth - 1)]
-    if isinstance(e, ast.Call) and chain(e.func) is not None and chain(e.func).count(".") <= 1 and ctx.repo.resolve_call(fi, e):
-        # a helper (method, static method or module function) that selects the delay: its return values, with parameters
+    if isinstance(e, ast.Call) and chain(e.func) is not None and ctx.repo.resolve_call(fi, e):
+        # a helper (method, static method, module function, or a method of a private state-holder object kept in an attribute:
+        # `self._state.delay_for(cache, cache.timeout_delay)`) that selects the delay: its return values, with parameters
         # bound to our arguments
         out = []
         for tgt in ctx.repo.resolve_call(fi, e):
